@@ -1,6 +1,6 @@
 (* Properties/C11.v — Placeholder resolution: substitution, defaults, termination, true cycles only. *)
 From Coq Require Import List Arith Bool.
-From YT Require Import Model.Resolver Proofs.ResolverProofs.
+From YT Require Import Model.Resolver Proofs.ResolverProofs Proofs.ResolverTermProofs.
 Import ListNotations.
 
 (* Resolve(s) == s when s has no prefix; text outside placeholders is never altered. *)
@@ -61,14 +61,32 @@ Proof. exact self_reference_cycles. Qed.
 Print Assumptions C11_self_reference_cycles.
 
 (* ... and resolution terminates with a string — never a cycle, never out of fuel, with an explicit
-   fuel bound — for tables whose values are pure text and inputs without separators.
-   PARTIAL: termination for tables whose values themselves contain placeholders (acyclic or not,
-   possibly unbalanced) is not proved; it is searched for exhaustively on small scopes by the
-   correspondence (Go-side timeout per call) — see DESIGN.md C11. *)
-Theorem C11_terminates_partial : forall tbl, chars_tbl tbl -> forall s, nosep s = true ->
+   fuel bound (one more than the number of prefix tokens of the input) — for every FLAT table (no
+   value mentions a prefix; values may hold stray separators and suffixes) and EVERY input: nesting,
+   repetition, defaults, defaults taken from resolved text and resolved again, unknown keys,
+   unterminated tails.  Measure: the number of prefix tokens; every body on the visited stack holds at
+   least as many as the text being scanned, so no body is met twice.
+   PARTIAL: termination for tables whose values themselves contain placeholders (acyclic or cyclic,
+   possibly unbalanced, so that resolved text can spell new placeholders) is not proved; it is
+   searched for on generated tables by the correspondence (Go-side timeout per call) — see DESIGN.md C11. *)
+Theorem C11_terminates_partial : forall tbl, flat_tbl tbl -> forall s,
+  exists r, resolve_top tbl (S (cpre s)) s = ROk r.
+Proof. exact flat_terminates_top. Qed.
+Print Assumptions C11_terminates_partial.
+
+(* the same under any visited stack whose bodies hold at least as many prefixes; the result holds no
+   more prefixes than the input *)
+Theorem C11_terminates_flat_inner : forall tbl, flat_tbl tbl -> forall n s seen,
+  cpre s <= n -> Forall (fun b => cpre s <= cpre b) seen ->
+  exists r, resolve tbl (S n) seen s = ROk r /\ cpre r <= cpre s.
+Proof. exact flat_terminates. Qed.
+Print Assumptions C11_terminates_flat_inner.
+
+(* the earlier, weaker form: pure-text values, inputs without separators, bound by length *)
+Theorem C11_terminates_text : forall tbl, chars_tbl tbl -> forall s, nosep s = true ->
   exists r, resolve_top tbl (S (length s)) s = ROk r.
 Proof. exact chars_terminates_top. Qed.
-Print Assumptions C11_terminates_partial.
+Print Assumptions C11_terminates_text.
 
 (* non-vacuity: ${a}-${a}, a nested key, a default containing a placeholder *)
 Definition C11_tbl := tbl_of [([TChr 1], [TChr 9]); ([TChr 2], [TPre; TChr 1; TSuf; TChr 7])].
